@@ -385,6 +385,37 @@ func simDict() *dict.Parser {
 	return simDictP
 }
 
+var (
+	simDictBareOnce sync.Once
+	simDictBareP    *dict.Parser
+)
+
+// simDictBare is simDict without the definition of Result-Code: an application dictionary
+// loaded without the base protocol's AVPs. Codes the library itself puts into messages
+// (Result-Code in Message.Answer) do not depend on the dictionary knowing them.
+func simDictBare() *dict.Parser {
+	simDictBareOnce.Do(func() {
+		var keep []string
+		for _, l := range strings.Split(simDictXML, "\n") {
+			if !strings.Contains(l, `name="Result-Code"`) {
+				keep = append(keep, l)
+			}
+		}
+		p, err := dict.NewParser()
+		if err == nil {
+			err = p.Load(strings.NewReader(strings.Join(keep, "\n")))
+		}
+		if err == nil {
+			err = p.Load(strings.NewReader(simDictAddendumXML))
+		}
+		if err != nil {
+			panic("bare sim dictionary: " + err.Error())
+		}
+		simDictBareP = p
+	})
+	return simDictBareP
+}
+
 // marker builds the Sim-Octets payload identifying a message: "c<conn>/m<seq>/" padded to n bytes.
 func marker(conn, seq, n int, fill byte) []byte {
 	s := fmt.Sprintf("c%d/m%d/", conn, seq)
